@@ -50,3 +50,11 @@ Fixpoint model_run (quic : bool) (st : kdata) (ms : list mop) : list fobs :=
   | MStore c :: rest => model_run quic (store_cookie st c) rest
   | MFetch sc ex :: rest => let '(st', o) := model_fetch quic ex st sc in o :: model_run quic st' rest
   end.
+
+(* the state of the fetcher after a history *)
+Fixpoint model_final (quic : bool) (st : kdata) (ms : list mop) : kdata :=
+  match ms with
+  | [] => st
+  | MStore c :: rest => model_final quic (store_cookie st c) rest
+  | MFetch sc ex :: rest => model_final quic (fst (model_fetch quic ex st sc)) rest
+  end.
